@@ -8,6 +8,7 @@ var checks = map[string]checkDef{
 	"C02": {Harness: "c02", Instrument: true},
 	"C05": {Harness: "c05", Instrument: true},
 	"C08": {Harness: "c08", Instrument: true},
+	"C10": {Harness: "c10", Instrument: true},
 	"C14": {Harness: "c14"},
 	"C17": {Harness: "c17"},
 }
